@@ -11,3 +11,5 @@ var inRun atomic.Bool
 var distinctOut *os.File
 
 func filepathGlob(p string) ([]string, error) { return filepath.Glob(p) }
+
+var leakedRuns int
